@@ -289,7 +289,7 @@ def step (st : St) (line : String) : St × String :=
   let (op, out) := splitArrow line
   match words op with
   | "case" :: _ :: k :: rest =>
-    if k = "g" then
+    if k = "g" ∨ k = "G" then
       match rest.head?.bind parseD0 with
       | some d0 => ({ kind := .g, gs := GSys.boot d0, odur := d0 }, "case")
       | Option.none => ({}, "BAD d0")
